@@ -267,6 +267,7 @@ fn check_error(i: u64, e: &DbError, rate_limit: bool) -> bool {
 }
 
 struct C08Script {
+    nometa_bomb: Option<i32>,
     deep_nesting: Option<usize>,
     /// Custom (id 0x0000) column types, as type-name strings, to put in the wide
     /// query's metadata instead of the regular columns.
@@ -292,6 +293,16 @@ fn tablet_payload(first: i64, last: i64, replicas: &[([u8; 16], i32)]) -> Vec<u8
 
 impl Script for C08Script {
     fn on_user_request(&mut self, w: &mut World, rq: &ReqInfo, req: &Request) -> Reply {
+        if let (Some(cols), Request::Execute { params, .. }) = (self.nometa_bomb, req) {
+            if params.skip_metadata && rq.marker.is_some() {
+                let mut b = W::new();
+                b.i32(0x0002).i32(0x0004).i32(cols).i32(i32::MAX);
+                w.fault(world::Fault::Corrupt);
+                w.probe("rows_without_metadata_announcing_2e31_rows");
+                crate::runner::note(&format!("Rows/NO_METADATA body announcing {cols} columns and 2^31-1 rows in 16 bytes"));
+                return Reply::Raw { opcode: wire::OP_RESULT, body: b.buf, env: Envelope::default(), delay: w.think() };
+            }
+        }
         if let Request::Query { text, .. } = req {
             if text.starts_with(ERR_Q) {
                 let (code, extra) = scripted_error(rq.marker.unwrap_or(0));
@@ -426,6 +437,10 @@ struct Plan {
     /// Field-aware mutation of a PREPARED answer: the partition-key index list of the
     /// compound-key statement (normally [0, 1, 2]) replaced by a seeded list.
     pk_fuzz: Option<Vec<u16>>,
+    /// Field-aware mutation: an EXECUTE that asked the node to omit the result metadata
+    /// is answered with a 16-byte Rows body saying NO_METADATA, `cols` columns and
+    /// 2^31-1 rows (no row bytes at all).
+    nometa_bomb: Option<i32>,
 }
 
 /// Prepared statement with a three-column partition key (and the marker bind).
@@ -548,6 +563,7 @@ pub fn run(req: &RunRequest) -> Value {
                 rate_limit_ext: true,
                 sharded: true,
                 pk_fuzz: None,
+                nometa_bomb: None,
             }
         } else {
             let fault_free = tape::chance("c08:fault_free", 1, 10);
@@ -582,6 +598,11 @@ pub fn run(req: &RunRequest) -> Value {
                 pk_fuzz: if custom && tape::chance("c08:pk_fuzz", 1, 2) {
                     const IDX: [u16; 7] = [0, 1, 2, 3, 4, 7, 65535];
                     Some((0..tape::choose("c08:pk_fuzz_len", 6)).map(|_| IDX[tape::choose("c08:pk_fuzz_idx", IDX.len() as u64) as usize]).collect())
+                } else {
+                    None
+                },
+                nometa_bomb: if deep && !custom && tape::chance("c08:nometa_bomb", 1, 2) {
+                    Some([0, 1, 2, -1][tape::choose("c08:bomb_cols", 4) as usize])
                 } else {
                     None
                 },
@@ -743,6 +764,7 @@ async fn main(plan: Plan) -> Outcome {
     {
         let mut w = world::world();
         w.script = Some(Box::new(C08Script {
+            nometa_bomb: plan.nometa_bomb,
             deep_nesting: plan.deep_nesting,
             custom_types: plan.custom_types.clone(),
             tablets: true,
@@ -819,7 +841,37 @@ async fn main(plan: Plan) -> Outcome {
             if let Some(r) = step(&mut out, "execute", session.execute_unpaged(&p, (1i64, m as i64))).await {
                 match r {
                     Ok(qr) => {
-                        let chk = client::check_marker_rows(qr, m);
+                        // A decoded result whose rows have at least one column cannot hold
+                        // more rows than the frame had bytes (every cell takes >= 4 bytes).
+                        let chk = match qr.into_rows_result() {
+                            Ok(rr) => {
+                                if rr.column_specs().len() >= 1 && rr.rows_num() > 1_000_000 {
+                                    out.violation(
+                                        "c08.rows_out_of_proportion",
+                                        format!(
+                                            "a response of a few bytes was decoded into a result of {} rows with {} columns [{:?}]",
+                                            rr.rows_num(),
+                                            rr.column_specs().len(),
+                                            world::world().mutation_fired
+                                        ),
+                                    );
+                                }
+                                (|| {
+                                    let got: Vec<i64> = rr
+                                        .rows::<(i64,)>()
+                                        .map_err(|e| format!("marker {m}: rows type check failed: {e}"))?
+                                        .take(ROW_CAP)
+                                        .map(|r| r.map(|t| t.0))
+                                        .collect::<Result<_, _>>()
+                                        .map_err(|e| format!("marker {m}: row deserialization failed: {e}"))?;
+                                    if got != vec![m as i64] {
+                                        return Err(format!("request with marker {m} received rows {:?}", &got[..got.len().min(4)]));
+                                    }
+                                    Ok(())
+                                })()
+                            }
+                            Err(e) => Err(format!("marker {m}: result is not rows: {e}")),
+                        };
                         if clean {
                             if let Err(e) = chk {
                                 out.violation("c08.roundtrip", e);
